@@ -91,7 +91,17 @@ RULE = ("six strata. `large-batches`: every ranker at batch sizes 64, 100, 127, 
         "judged on exactly the floats the ranker reports). `emitter`: a real "
         "EvolutionStrategyEmitter + real archive (grid / sliding / proximity) driven through ask / add / rank / "
         "tell cycles with restarts (restart_rule no_improvement, 1, 2, basic; restarts detected through the public "
-        "restart counter). A case is non-trivial when some ranked batch has two rows with the same key "
+        "restart counter). `rejected calls` (drawn inside the batches / direction / emitter / long-resets strata, 1..3 "
+        "per history at random positions incl. the very first and last op): a call the ranker REJECTS (raises) -- "
+        "reset() against an archive whose bounds are unavailable (an empty ProximityArchive, one that is empty again "
+        "after clear() -- a separate one or the archive in use --, a user-defined GridArchive subclass whose "
+        "upper_bounds / lower_bounds property raises RuntimeError / ValueError / NotImplementedError / AttributeError "
+        "/ a custom exception, archive=None), rank() with malformed inputs (add_info / data None or not a dict, a "
+        "missing key, status too short / too long / 2-D, measures of another width / 3-D) -- after which the SAME "
+        "object is used for the rest of the history and must behave exactly like a twin (deep copy taken before the "
+        "first rejected call) that never makes these calls: same target_measure_dir straight after the rejection, "
+        "same direction after every later reset, same outcome of every later rank call; the archive and the inputs "
+        "of the rejected call must be unchanged. A case is non-trivial when some ranked batch has two rows with the same key "
         "(a tie) or the history has two resets; counted once per distinct op list")
 PARTIAL = []
 ASSUMPTIONS = [
@@ -134,7 +144,9 @@ _DRV = [None]
 STATS = {"range-subtraction-rounded": 0, "resets-after-the-bounds-moved": 0, "resets-skipped-empty-archive": 0,
          "rank-calls-compared": 0, "rank-calls-compared-rounded-projection": 0, "rank-calls-skipped-inexact-projection": 0, "rejections-compared": 0,
          "resets-replayed": 0, "resets-rounded-then-synchronised": 0, "restarts-inside-tell": 0,
-         "tell-raised": 0}
+         "tell-raised": 0, "rejected-calls-raised-then-object-used-again": 0, "rejected-calls-accepted-by-the-library": 0,
+         "twin-compared-after-rejected-call": 0, "twin-compared-resets-after-rejected-call": 0,
+         "twin-compared-rank-calls-after-rejected-call": 0}
 
 
 def driver():
@@ -322,6 +334,7 @@ class Run:
         self.seen_draws = {}  # unscaled direction -> number of the reset that produced it
         self.n_resets = 0
         self.alts = {}  # further archives a reset may be pointed at (reset takes the archive as an argument)
+        self.twin = None  # deep copy of the ranker taken before the first REJECTED call; it never makes such calls
         cls = getattr(rk, CLS[self.kind])
         seedkind = case["seedkind"]
         self.replay = None if seedkind == "none" else np.random.default_rng(replay_seed(case))
@@ -383,6 +396,13 @@ class Run:
             self.drv.ask(f"reset z={ql([0] * self.d)} lo={ql([0] * self.d)} hi={ql([1] * self.d)}")
             return self.compare_dir(where)
         after = self.impl_dir()
+        if self.twin is not None:
+            # the twin that never made the rejected call(s) resets against the same archive: same direction
+            self.twin.reset(self.emitter, self.archive if archive is None else archive)
+            STATS["twin-compared-resets-after-rejected-call"] += 1
+            f = self.twin_same(where)
+            if f:
+                return f
         # the archive's measure ranges AT THIS MOMENT (sliding / proximity archives move their bounds)
         lb, ub = bounds_of(self.archive if archive is None else archive)
         d = len(lb)
@@ -455,6 +475,167 @@ class Run:
             self.ranker.reset(self.emitter, target)
         return self.after_reset(where, before, target)
 
+    # ---- rejected calls ----------------------------------------------------
+
+    def twin_same(self, where):
+        """the ranker holds the same public state as its twin, which never made the rejected call(s)"""
+        if self.twin is None or self.kind not in DIR:
+            return None
+        a, b = self.ranker.target_measure_dir, self.twin.target_measure_dir
+        same = (a is None) == (b is None)
+        if same and a is not None:
+            a, b = np.asarray(a), np.asarray(b)
+            same = a.shape == b.shape and a.dtype == b.dtype and bool(np.array_equal(a, b))
+        if not same:
+            return Failure("oracle", f"{where}: after a rejected call the ranker's direction is "
+                           f"{None if a is None else np.asarray(a).tolist()}; a copy of the ranker that never made the "
+                           f"call holds {None if b is None else np.asarray(b).tolist()} (a rejected call is not a reset)")
+        return None
+
+    def twin_rank(self, where, data, add_info, out, err):
+        """the same rank call on the twin: same outcome"""
+        import copy
+        terr, tout = None, None
+        try:
+            tout = self.twin.rank(self.emitter, self.archive, copy.deepcopy(data), copy.deepcopy(add_info))
+        except Exception as e:  # pylint: disable=broad-except
+            terr = next((v for k, v in ERRS.items() if isinstance(e, k)), "other:" + type(e).__name__)
+        STATS["twin-compared-rank-calls-after-rejected-call"] += 1
+        if err != terr:
+            return Failure("oracle", f"{where}: rank after a rejected call: outcome {err or 'returned'}, on a copy of "
+                           f"the ranker that never made the rejected call: {terr or 'returned'}")
+        if err is None:
+            try:
+                same = len(out) == len(tout) == 2 and all(
+                    np.asarray(x).shape == np.asarray(y).shape and np.array_equal(np.asarray(x), np.asarray(y))
+                    for x, y in zip(out, tout))
+            except Exception:  # pylint: disable=broad-except
+                same = False
+            if not same:
+                return Failure("oracle", f"{where}: rank after a rejected call returned "
+                               f"{[np.asarray(x).tolist() for x in out]}; a copy of the ranker that never made the "
+                               f"rejected call returns {[np.asarray(x).tolist() for x in tout]}")
+        return self.twin_same(where)
+
+    def unbounded_archive(self, how):
+        """an archive whose measure bounds are unavailable"""
+        from ribs.archives import GridArchive, ProximityArchive
+        d, sd = self.d, self.case["sol_dim"]
+        if how in ("empty-proximity", "cleared-proximity"):
+            a = ProximityArchive(solution_dim=sd, measure_dim=d, k_neighbors=1, novelty_threshold=0.5)
+            if how == "cleared-proximity":
+                # it HAD bounds (extent 3 / 0.25 per dimension) and is empty again
+                a.add(np.zeros((2, sd)), [0.0, 1.0], np.array([[-1.0] * d, [2.0] * d]) * ([1.0, 0.125] * d)[:d])
+                a.clear()
+            return a
+        if how == "none":
+            return None
+        which, _, exc_name = how.partition(":")  # a user-defined archive whose bounds property raises
+
+        class Unavailable(LookupError):
+            pass
+
+        exc = {"runtime": RuntimeError, "value": ValueError, "notimplemented": NotImplementedError,
+               "attribute": AttributeError, "custom": Unavailable}[exc_name]
+
+        def raising(self_):
+            raise exc("the bounds of this archive are not available")
+
+        members = {}
+        if which in ("upper", "both"):
+            members["upper_bounds"] = property(raising)
+        if which in ("lower", "both"):
+            members["lower_bounds"] = property(raising)
+        cls = type("UnboundedGrid", (GridArchive,), members)
+        return cls(solution_dim=sd, dims=[2] * d, ranges=[tuple(r) for r in self.case["ranges"]])
+
+    def rejected(self, where, op):
+        """a call the ranker must REJECT (it raises), after which the object is used again: from the first such
+        call on a twin (deep copy taken before the call) that never makes these calls is carried along, and the
+        ranker must hold the same public state and return the same outputs for the rest of the history"""
+        import copy
+        how = op["how"]
+        kind = self.kind
+        if self.twin is None:
+            self.twin = copy.deepcopy(self.ranker)
+        refill = None
+        if op["call"] == "reset":
+            if how == "cleared-main":
+                # the archive in use is emptied (ProximityArchive: no bounds while empty), the reset is rejected,
+                # then entries arrive again
+                if self.case["archive"] != "proximity" or self.case["via"] != "direct":
+                    return None
+                self.archive.clear()
+                target, refill = self.archive, op.get("rows") or []
+            else:
+                target = self.unbounded_archive(how)
+
+            def call():
+                if op.get("kw"):
+                    return self.ranker.reset(emitter=self.emitter, archive=target)
+                return self.ranker.reset(self.emitter, target)
+        else:
+            rows = op["rows"]
+            data, info = build_batch(rows, op["sdt"], op["fdt"], op["fdt"], self.d, self.case["sol_dim"])
+            if self.case["archive"] == "density":
+                self.archive.table = None
+                self.archive.as_list = False
+            if how == "add_info-none":
+                info = None
+            elif how == "data-none":
+                data = None
+            elif how == "add_info-not-a-dict":
+                info = [info["status"], info["value"]]
+            elif how.startswith("missing:"):
+                for part in (data, info):
+                    part.pop(how.split(":")[1], None)
+            elif how == "status-short":
+                info["status"] = info["status"][:-1]
+            elif how == "status-long":
+                info["status"] = np.concatenate([info["status"], info["status"][:1]])
+            elif how == "status-2d":
+                info["status"] = np.stack([info["status"], info["status"]], axis=0)
+            elif how == "measures-wider":
+                data["measures"] = np.concatenate([data["measures"], data["measures"][:, :1]], axis=1)
+            elif how == "measures-narrower":
+                data["measures"] = data["measures"][:, :-1] if self.d > 1 else data["measures"][:, :0]
+            elif how == "measures-3d":
+                data["measures"] = data["measures"][:, :, None] * np.ones(3)
+            target = self.archive
+
+            def call():
+                if op.get("kw"):
+                    return self.ranker.rank(emitter=self.emitter, archive=self.archive, data=data, add_info=info)
+                return self.ranker.rank(self.emitter, self.archive, data, info)
+        before = (archive_digest(self.archive), None if op["call"] == "reset" else digest({"data": data or {}, "add_info": info if isinstance(info, dict) else {}}))
+        raised = None
+        try:
+            call()
+        except Exception as e:  # pylint: disable=broad-except
+            raised = e
+        if refill is not None:
+            grow(self.archive, refill, self.d, self.case["sol_dim"])
+        if raised is None:
+            # not rejected: whatever the call did is not judged here (the property does not demand rejections);
+            # the twin and the model follow the ranker
+            STATS["rejected-calls-accepted-by-the-library"] += 1
+            self.twin = copy.deepcopy(self.ranker)
+            if kind in DIR:
+                v = self.impl_dir()
+                if v is not None and finite(v) and v.ndim == 1:
+                    self.drv.ask(f"setdir d={ql(qs(x) for x in v)}")
+            return None
+        STATS["rejected-calls-raised-then-object-used-again"] += 1
+        if refill is None:
+            after = (archive_digest(self.archive), None if op["call"] == "reset" else digest({"data": data or {}, "add_info": info if isinstance(info, dict) else {}}))
+            if before != after:
+                return Failure("oracle", f"{where}: the rejected call ({type(raised).__name__}) modified the archive or its inputs")
+        STATS["twin-compared-after-rejected-call"] += 1
+        f = self.twin_same(f"{where} raised {type(raised).__name__}")
+        if f:
+            return f
+        return self.compare_dir(where)
+
     # ---- rank ------------------------------------------------------------
 
     def rank(self, where, data, add_info, dens=None, has_density=True, kw=False):
@@ -482,6 +663,10 @@ class Run:
         for name, x, y in zip(("data", "add_info", "archive"), before, after):
             if x != y:
                 return Failure("oracle", f"{where}: rank modified its input `{name}`")
+        if self.twin is not None:
+            f = self.twin_rank(where, data, add_info, out, err)
+            if f:
+                return f
         dir1 = self.impl_dir()
         if (dir0 is None) != (dir1 is None) or (dir0 is not None and not np.array_equal(dir0, dir1)):
             return Failure("oracle", f"{where}: rank changed the direction {dir0} -> {dir1}")
@@ -716,8 +901,14 @@ def _run_case(case):
                 continue
             v = np.array(op["d"], dtype=op.get("dt", "float64"))
             run.ranker.target_measure_dir = v
+            if run.twin is not None:
+                run.twin.target_measure_dir = v.copy()
             run.drv.ask(f"setdir d={ql(qs(x) for x in v)}")
             f = run.compare_dir(where)
+            if f:
+                return f
+        elif name == "rejected":
+            f = run.rejected(f"{where} [{op['call']}: {op['how']}]", op)
             if f:
                 return f
         elif name == "fill":
@@ -958,6 +1149,9 @@ def gen_batches(rng):
                         "fdt": "float64"})
     if kind == "density" and rng.random() < 0.1:
         case["archive"] = "grid"  # no compute_density: AttributeError
+    sprinkle_rejected(rng, case, ops, 0.35, lambda: [
+        {"op": "rank", "rows": gen_rows(rng, rng.randint(1, 6), d, False, False), "sdt": rng.choice(INT_DTYPES),
+         "fdt": rng.choice(FLOAT_DTYPES)}])
     case["ops"] = ops
     return case
 
@@ -1032,6 +1226,17 @@ def gen_direction(rng):
             ops.append({"op": "rank", "rows": gen_rows(rng, batch_size(rng), d, False, real, scales=scales, free=free),
                         "sdt": rng.choice(INT_DTYPES), "fdt": fdt, "mdt": "float64" if scales else fdt,
                         "kw": rng.random() < 0.3})
+
+    def follow():
+        # the ranker is used again after the rejected call: rank under the direction it holds, reset, rank
+        fdt = rng.choice(FLOAT_DTYPES)
+        out = [{"op": "rank", "rows": gen_rows(rng, rng.randint(1, 6), d, False, True, scales=scales),
+                "sdt": rng.choice(INT_DTYPES), "fdt": fdt, "mdt": "float64" if scales else fdt}]
+        if rng.random() < 0.6:
+            out = out + [{"op": "reset", "kw": rng.random() < 0.3}] + [dict(out[0])]
+        return out
+
+    sprinkle_rejected(rng, case, ops, 0.6, follow)
     case["ops"] = ops
     return case
 
@@ -1060,8 +1265,71 @@ def gen_emitter(rng, adts=tuple(FLOAT_DTYPES)):
             for r in rows:
                 r[OBJ] = floor + rng.choice([-1.0, -0.5, -0.5, 0.0])
         ops.append({"op": "gen", "rows": rows})
+    sprinkle_rejected(rng, case, ops, 0.4, lambda: [
+        {"op": "gen", "rows": gen_rows(rng, bs, d, False, kind in DIR, scales=scales)}])
     case["ops"] = ops
     return case
+
+
+# rejected calls -------------------------------------------------------------------
+
+RESET_REJECTIONS = (["empty-proximity", "cleared-proximity", "none"] +
+                    [f"{w}:{e}" for w in ("upper", "lower", "both")
+                     for e in ("runtime", "value", "notimplemented", "attribute", "custom")])
+_NEEDS_INFO = {"imp", "2imp", "2rd", "2obj", "nov"}
+_NEEDS_DATA = {"rd", "2rd", "obj", "2obj", "density"}
+_KEY_OF = {"imp": ["value"], "2imp": ["value", "status"], "rd": ["measures"], "2rd": ["measures", "status"],
+           "obj": ["objective"], "2obj": ["objective", "status"], "nov": ["novelty"], "density": ["measures"]}
+ALL_RANK_REJECTIONS = (["add_info-none", "add_info-not-a-dict", "data-none", "status-short", "status-long",
+                        "status-2d", "measures-wider", "measures-narrower", "measures-3d"] +
+                       ["missing:" + k for k in ("value", "status", "measures", "objective", "novelty")])
+
+
+def rank_rejections(kind):
+    """the malformed rank calls that concern this ranker (it reads the malformed part)"""
+    out = ["missing:" + k for k in _KEY_OF[kind]]
+    if kind in _NEEDS_INFO:
+        out += ["add_info-none", "add_info-not-a-dict"]
+    if kind in _NEEDS_DATA:
+        out.append("data-none")
+    if kind in TWO:
+        out += ["status-short", "status-long", "status-2d"]
+    if kind in DIR:
+        out += ["measures-wider", "measures-narrower", "measures-3d"]
+    return out
+
+
+def gen_rejected(rng, case, d):
+    """one call that is to be rejected: reset() against an archive whose bounds are unavailable (an empty /
+    emptied ProximityArchive, a user-defined archive whose bounds properties raise, no archive at all), or rank()
+    with malformed data / add feedback"""
+    kind = case["kind"]
+    if rng.random() < (0.6 if kind in DIR else 0.1):
+        hows = list(RESET_REJECTIONS)
+        if case["archive"] == "proximity" and case["via"] == "direct":
+            hows += ["cleared-main"] * 6
+        op = {"op": "rejected", "call": "reset", "how": rng.choice(hows), "kw": rng.random() < 0.3}
+        if op["how"] == "cleared-main":
+            op["rows"] = wide_rows(rng, rng.randint(1, 4), d, case.get("scales"))
+        return op
+    hows = rank_rejections(kind) if rng.random() < 0.85 else ALL_RANK_REJECTIONS
+    return {"op": "rejected", "call": "rank", "how": rng.choice(hows), "kw": rng.random() < 0.3,
+            "rows": gen_rows(rng, rng.randint(1, 5), d, False, kind in DIR, scales=case.get("scales")),
+            "sdt": rng.choice(INT_DTYPES), "fdt": rng.choice(FLOAT_DTYPES)}
+
+
+def sprinkle_rejected(rng, case, ops, p, follow=None):
+    """with probability p: 1..3 rejected calls at random positions of the history (start and end included);
+    `follow()` makes an op to append when nothing would come after the last rejected call"""
+    if rng.random() >= p:
+        return ops
+    d = len(case["ranges"])
+    for _ in range(rng.choice([1, 1, 2, 3])):
+        ops.insert(rng.randint(0, len(ops)), gen_rejected(rng, case, d))
+    if ops[-1]["op"] == "rejected" and follow is not None:
+        ops.extend(follow())
+    case["rejected"] = True
+    return ops
 
 
 # large batches ------------------------------------------------------------------
@@ -1143,6 +1411,7 @@ def gen_long(rng, emitter_every=4):
         if rng.random() < 0.5:
             ops.append({"op": "rank", "rows": gen_rows(rng, rng.randint(1, 6), d, False, True, scales=scales),
                         "sdt": rng.choice(INT_DTYPES), "fdt": "float64", "mdt": "float64"})
+    sprinkle_rejected(rng, case, ops, 0.5, lambda: [{"op": "resets", "count": rng.randint(1, 5)}])
     case["ops"] = ops
     return case
 
@@ -1225,6 +1494,9 @@ def features(ctx, case):
             ctx.count(op["op"] + "-ops")
         elif op["op"] in ("resets", "gens"):
             ctx.count("resets-in-long-reset-histories", op["count"])
+        elif op["op"] == "rejected":
+            ctx.count("rejected-call-ops")
+            ctx.count(f"rejected-call:{op['call']}:{op['how']}")
 
 
 def run(ctx):
